@@ -104,6 +104,7 @@ type bhost struct {
 	detachedNow map[*mbuf]bool // buffers detached by a fault during the current step
 	allowed     map[*mbuf][]brange
 	lastSpecies *goja.Object
+	aliasNow    *aliasSpec // what a species-alias / species-shrink fault handed out in this step (length form only)
 	stale       []staleRec
 	hookCalls   int64
 	res         *core.Result
@@ -302,6 +303,9 @@ func (h *bhost) speciesHook(call goja.FunctionCall) goja.Value {
 				a := append([]goja.Value(nil), av...)
 				n2 := reqLen - 1 - (f.param%2)*(reqLen-1)
 				a[len(a)-1] = h.rt.ToValue(n2)
+				if lenForm {
+					h.aliasNow = &aliasSpec{n: n2}
+				}
 				h.markFired(f, fmt.Sprintf("species constructor returned length %d instead of %d", n2, reqLen))
 				out = mk(et, a...)
 			}
@@ -316,15 +320,57 @@ func (h *bhost) speciesHook(call goja.FunctionCall) goja.Value {
 			out = mk(et2, av...)
 		case bfSpAlias:
 			if lenForm {
-				// a view over a host-owned slab buffer, ending exactly at the end of the buffer when it fits
+				// a view over an existing buffer: mostly the buffer the operation reads from, placed at the end of the buffer
+				// (an overrun hits the guard page), at its start, one element after the first source byte (the destination
+				// starts INSIDE the source range: forward overlap), or at a drawn offset
+				ob := h.op.opBufs(h.m)
+				srcLo, srcHi := -1, -1
+				if vs, _ := h.op.uses(h.m); len(vs) > 0 {
+					sv := h.m.views[vs[0]]
+					srcLo, srcHi = sv.off, sv.off+sv.byteLen()
+					if h.op.kind == boSlice && sv.live() {
+						k, fin := relIndex(h.op.a[0].val(0), sv.n), relIndex(h.op.a[1].val(float64(sv.n)), sv.n)
+						srcLo, srcHi = sv.off+k*sv.size(), sv.off+max(fin, k)*sv.size()
+					}
+				}
 				for i := range h.m.bufs {
-					b := h.m.bufs[(i+f.param)%len(h.m.bufs)]
-					if b.absent || b.detached || !b.goOwned {
+					b := h.m.bufs[(i+f.param>>8)%len(h.m.bufs)]
+					if i == 0 && len(ob) > 0 && (f.param>>4)%4 != 3 {
+						b = ob[0]
+					}
+					if b.absent || b.detached || b.id < 0 || b.id >= len(h.bufs) || h.bufs[b.id] == nil {
 						continue
 					}
 					sz := etSize[et]
 					n := min(reqLen, len(b.data)/sz)
 					off := (len(b.data) - n*sz) / sz * sz
+					if n == reqLen {
+						switch f.param % 8 {
+						case 1:
+							off = 0
+						case 2, 3, 4:
+							if c := (max(srcLo, 0) + sz) / sz * sz; c+n*sz <= len(b.data) {
+								off = c
+							}
+						case 5, 6:
+							off = (f.param >> 10) % ((len(b.data)-n*sz)/sz + 1) * sz
+						}
+					}
+					if len(ob) > 0 && b == ob[0] && srcLo >= 0 && n > 0 {
+						switch {
+						case off >= srcHi || off+n*sz <= srcLo:
+							h.res.Count("species-alias-disjoint-same-buffer", 1)
+						case off > srcLo:
+							h.res.Count("species-alias-forward-overlap", 1)
+						case off < srcLo:
+							h.res.Count("species-alias-backward-overlap", 1)
+						default:
+							h.res.Count("species-alias-exact-overlap", 1)
+						}
+					} else if n > 0 {
+						h.res.Count("species-alias-other-buffer", 1)
+					}
+					h.aliasNow = &aliasSpec{buf: b, off: off, n: n}
 					h.allow(b, off, off+n*sz)
 					h.markFired(f, fmt.Sprintf("species constructor returned a view over %s at byte %d, length %d (requested %d)", bname(b.id), off, n, reqLen))
 					out = mk(et, h.bufs[b.id].obj, h.rt.ToValue(off), h.rt.ToValue(n))
@@ -805,6 +851,7 @@ func (e *bufsim) runPass(w *bwork, plan []*bfault, res *core.Result, want bool) 
 		h.log = h.log[:0]
 		h.firedNow = h.firedNow[:0]
 		h.lastSpecies = nil
+		h.aliasNow = nil
 		for k := range h.detachedNow {
 			delete(h.detachedNow, k)
 		}
@@ -815,6 +862,10 @@ func (e *bufsim) runPass(w *bwork, plan []*bfault, res *core.Result, want bool) 
 			b.dirty = b.dirty[:0]
 		}
 		et := -1
+		var snap []bufSnap
+		if plan != nil && (op.kind == boSlice || op.kind == boFrom || op.kind == boOf || (op.kind == boIter && (op.sub == itMap || op.sub == itFilter))) {
+			snap = m.snapshot()
+		}
 		exp := m.apply(op)
 		rec := stepRec{op: op}
 		if exp.skip {
@@ -926,6 +977,21 @@ func (e *bufsim) runPass(w *bwork, plan []*bfault, res *core.Result, want bool) 
 			}
 		}
 		faulted := len(h.firedNow) > 0
+		// STRICT under species-alias / species-shrink: when the only fault of the step is a species constructor handing
+		// out a view over an existing buffer (or a shorter array) for a single-length request, ECMA-262 still determines
+		// the outcome, the callback values and every byte (slice: bytes transferred one at a time in ascending order;
+		// map/filter/from/of: element-wise Get/Set in index order; too short: TypeError before anything is written). The
+		// model is rewound and the step re-applied with that species result; the step is then judged like a fault-free one.
+		strictAlias := false
+		if snap != nil && len(h.firedNow) == 1 && h.aliasNow != nil && (h.firedNow[0].kind == bfSpAlias || h.firedNow[0].kind == bfSpShrink) && len(h.detachedNow) == 0 {
+			m.restore(snap)
+			saved := m.cnt
+			m.cnt, m.alias = nil, h.aliasNow
+			exp = m.apply(op)
+			m.cnt, m.alias = saved, nil
+			strictAlias = true
+			res.Count("strict-oracle-under-species-fault", 1)
+		}
 		rec.outcome, rec.want = outcome, exp.outcomes
 		rec.faults = append(rec.faults, h.firedNow...)
 		fs := "nofault"
@@ -955,7 +1021,7 @@ func (e *bufsim) runPass(w *bwork, plan []*bfault, res *core.Result, want bool) 
 				okOutcome = true
 			}
 		}
-		if faulted {
+		if faulted && !strictAlias {
 			// RELAXED (property wording): the step throws TypeError (RangeError where the spec says so) or completes
 			okOutcome = okOutcome || outcome == "!TypeError" || outcome == "!RangeError" || strings.HasPrefix(outcome, "=")
 		}
@@ -968,7 +1034,7 @@ func (e *bufsim) runPass(w *bwork, plan []*bfault, res *core.Result, want bool) 
 			}
 			fail(rule, rule+" "+sig, fmt.Sprintf("step %d: %s\n  produced %s\n  expected %s", si, op.describe(m), core.Trunc(outcome, 600), core.Trunc(strings.Join(exp.outcomes, " or "), 600)))
 		}
-		if !faulted && exp.cb != nil && pr.viol == nil && strings.HasPrefix(outcome, "=") {
+		if (!faulted || strictAlias) && exp.cb != nil && pr.viol == nil && strings.HasPrefix(outcome, "=") {
 			var got []string
 			for _, ev := range h.log {
 				if strings.HasPrefix(ev, "P"+strconv.Itoa(op.site(slCb))+":") {
@@ -1040,7 +1106,7 @@ func (e *bufsim) runPass(w *bwork, plan []*bfault, res *core.Result, want bool) 
 		// ---- bytes, canaries, aliasing -------------------------------------------------------------------------------
 		if pr.viol == nil {
 			var relaxed map[*mbuf][]brange
-			if faulted {
+			if faulted && !strictAlias {
 				relaxed = map[*mbuf][]brange{}
 				for _, b := range m.bufs {
 					relaxed[b] = append(append([]brange(nil), b.dirty...), h.allowed[b]...)
@@ -1327,7 +1393,8 @@ func (e *bufsim) Run(t *core.Tape, want bool) *core.Result {
 		}
 		f := &bfault{at: at, param: 0}
 		if p1.probes[at].species {
-			f.kind = S.Draw(nBufFaults)
+			// species-alias is the kind with the richest fully determined outcome space: drawn three times as often
+			f.kind = min(S.Draw(nBufFaults+2), bfSpAlias)
 		} else {
 			f.kind = S.Draw(bfGoWrite + 1)
 		}
